@@ -19,11 +19,20 @@ class Ctx:
     def flow(self, func):
         if isinstance(func, str):
             func = self.model.func(func)
-        fl = self._flows.get(func.qual)
+        key = (func.qual, id(func.node))
+        fl = self._flows.get(key)
         if fl is None:
             fl = FuncFlow(func)
-            self._flows[func.qual] = fl
+            self._flows[key] = fl
         return fl
+
+    def flat(self, func):
+        """func with its private helpers inlined (flatten.py): what the CFG / dataflow rules look at,
+        so that moving a computation into a private helper does not hide it"""
+        from .flatten import flatten
+        if isinstance(func, str):
+            func = self.model.func(func)
+        return flatten(self, func)
 
     def func(self, qual):
         return self.model.func(qual)
